@@ -155,6 +155,15 @@ fn comp3(a: &mut Args, tm: bool) -> String {
         }
         obs += &format!("{} ", leaves.len());
         for l in &leaves { obs += &format!("{} ", l); }
+        // the property's reference: a FRESH computation at this pose (new manifold vector, no workspace)
+        {
+            let mut fm: Vec<M3> = Vec::new(); let mut fws = None;
+            let r = if flipped { DefaultQueryDispatcher.contact_manifolds(p, &*other, &*comp, pred, &mut fm, &mut fws) }
+                    else { DefaultQueryDispatcher.contact_manifolds(p, &*comp, &*other, pred, &mut fm, &mut fws) };
+            if r.is_err() { return "unsupported".into(); }
+            obs += &format!("{} ", fm.len());
+            for m in &fm { obs += &format!("{} {} {} ", m.subshape1, m.subshape2, fman3(m)); }
+        }
         let r = if flipped { DefaultQueryDispatcher.contact_manifolds(p, &*other, &*comp, pred, &mut manifolds, &mut ws) }
                 else { DefaultQueryDispatcher.contact_manifolds(p, &*comp, &*other, pred, &mut manifolds, &mut ws) };
         if r.is_err() { return "unsupported".into(); }
@@ -332,9 +341,12 @@ pub fn exec(func: &str, a: &mut Args) -> String {
         "seq2t" => seq2t(a),
         "comp3" => comp3(a, false),
         "tm3" => comp3(a, true),
-        _ => "nofn".into(),
+        _ => ext::exec(func, a),
     }
 }
+
+#[path = "c14_ext.rs"]
+mod ext;
 
 // ---------------------------------------------------------------- generators
 /// small rotation quaternion about a random axis, angle in radians
@@ -935,6 +947,7 @@ pub fn gen(r: &mut Rng, thorough: bool) -> Vec<(String, String)> {
     for it in 0..90 * k {
         let lat = it % 2 == 0;
         for kind in 0..9 { v.push(gen_seq3(r, lat, kind, 20)); }
+        if it % 2 == 0 { v.push(gen_seq3(r, it % 4 == 0, 10, 20)); }      // 3-D capsule/capsule: closed form, modelled
     }
     for it in 0..250 * k {
         let lat = it % 2 == 0;
@@ -964,5 +977,6 @@ pub fn gen(r: &mut Rng, thorough: bool) -> Vec<(String, String)> {
         v.push(gen_seq2_cc(r, it % 2 == 0, 20));
         v.push(gen_hf2(r, it % 4 == 0, 16));
     }
+    v.extend(ext::gen(r, thorough));
     v
 }
